@@ -1196,6 +1196,16 @@ def float_storage_twins(ctx, ex: Exploration, count: int):
             ex.evaluations += 1
             stats["select"] += 1
             if ef != ei or (ef is None and not same(vi, vf, iname)):
+                if D is not None and found < 3:          # shrink: one time, repeated, no trailing axis
+                    for t1 in dict.fromkeys(ts):
+                        tf1 = torch.full((P,), t1, dtype=T64)
+                        ti1 = tf1.to(time_i.dtype)
+                        vf1, ef1 = attempt(lambda: rf.select(tf1, INTERP[iname], tolerance=tol, offset=off, interp_kwargs=kw))
+                        vi1, ei1 = attempt(lambda: ri.select(ti1, INTERP[iname], tolerance=tol, offset=off, interp_kwargs=kw))
+                        if ef1 != ei1 or (ef1 is None and not same(vi1, vf1, iname)):
+                            ts, D, vf, ef, vi, ei = [t1] * P, 0, vf1, ef1, vi1, ei1
+                            tdesc = f"{str(time_i.dtype).replace('torch.', '')} tensor of shape {[P]}"
+                            break
                 report("float_storage_select",
                        f"select(times {ts} as {tdesc}, {iname}, tolerance={tol}, offset={off}) on {sd} storage (dt={dt}, N={n}) gives "
                        f"{ei or vi.reshape(-1).tolist()} but {ef or vf.reshape(-1).tolist()} on the float64 twin holding the same numbers",
